@@ -147,8 +147,11 @@ class LiveView:
 
 class LiveDict:
     """A dict shared with other tasks; only loops under a loop contract may walk it (element by contract)."""
-    def __init__(self, name, live=True):
-        self.name, self.live = name, live
+    def __init__(self, name, live=True, nonempty=True):
+        self.name, self.live, self.nonempty = name, live, nonempty
+
+    def __bool__(self):          # emptiness is a (possibly symbolic) fact about the shared dict
+        return bool(self.nonempty)
 
     def values(self): return LiveView(self, 'values', self.live)
     def items(self): return LiveView(self, 'items', self.live)
@@ -1106,7 +1109,7 @@ def H7(vc):
     """
     clock = Clock()
     settings = Opaque('settings')
-    running = LiveDict('running_daemons')
+    running = LiveDict('running_daemons', nonempty=vc.bool('some daemon or timer of the object is running'))
     forever = Opaque('forever_stopped')
     body = Opaque('cause-body')
     body0 = [None, Opaque('earlier-body')][vc.nondet(2, 'memory already holds a live body?')]
